@@ -395,7 +395,7 @@ func gen(r *rand.Rand, prop, tier string, index int) any {
 				case w < 10:
 					f.Kind = "mutate"
 					for m, nm := 0, 1+r.IntN(3); m < nm; m++ {
-						f.Muts = append(f.Muts, Mut{How: []string{"set", "set", "xor", "type", "len", "retype"}[r.IntN(6)], Pos: r.IntN(1 << 16), Val: r.IntN(256)})
+						f.Muts = append(f.Muts, Mut{How: []string{"set", "set", "xor", "type", "len", "retype", "resize", "resize"}[r.IntN(8)], Pos: r.IntN(1 << 16), Val: r.IntN(256)})
 					}
 				case w < 12:
 					// content cut short, length prefix adjusted: the tail of
@@ -1440,6 +1440,39 @@ func (r *run) materialize(f *Frame) []byte {
 						binary.BigEndian.PutUint32(nb, uint32(len(nb)-4))
 						b = nb
 					}
+				}
+			case "resize":
+				// one length-prefixed field of the body gets another size (the
+				// frame stays well-formed around it): a key or signature
+				// component that is too short or too long by a little
+				type fld struct{ off, n int }
+				var fs []fld
+				for p := 5; p+4 <= len(b); {
+					n := int(binary.BigEndian.Uint32(b[p:]))
+					if n < 0 || p+4+n > len(b) {
+						break
+					}
+					fs = append(fs, fld{p, n})
+					p += 4 + n
+				}
+				if len(fs) > 0 {
+					fd := fs[m.Pos%len(fs)]
+					nn := []int{0, 1, fd.n - 1, fd.n + 1, fd.n / 2, 16, 31, 33, 63, 65}[m.Val%10]
+					if nn < 0 {
+						nn = 0
+					}
+					content := append([]byte(nil), b[fd.off+4:fd.off+4+fd.n]...)
+					if nn <= len(content) {
+						content = content[:nn]
+					} else {
+						content = append(content, junk(nn-len(content))...)
+					}
+					nb := append([]byte(nil), b[:fd.off]...)
+					nb = binary.BigEndian.AppendUint32(nb, uint32(nn))
+					nb = append(nb, content...)
+					nb = append(nb, b[fd.off+4+fd.n:]...)
+					binary.BigEndian.PutUint32(nb, uint32(len(nb)-4))
+					b = nb
 				}
 			case "len":
 				// a four-byte big-endian field somewhere in the body becomes a
